@@ -17,6 +17,7 @@ import LA.Lemmas.Pax
 import LA.Lemmas.CpioStream
 import LA.Lemmas.CpioStreamOdc
 import LA.Lemmas.CpioAccept
+import LA.Lemmas.ArStream
 import LA.Props.C10
 namespace LA.C02
 open LA.Codec LA.NumFmt
@@ -229,5 +230,50 @@ example : ([({ path := some [97], size := some 5, nlink := 1 }, [[1, 2], [3, 4, 
             ({ path := some [120], size := none }, []),
             ({ path := some [100], ftype := .dir, nlink := 2 }, [])]
     : List (Entry × List (List Nat))).map (fun ec => newcAccepted ec.1) = [true, true, false, true] := by decide
+
+/-! ### ar archives (BSD and SVR4/GNU member headers) -/
+
+/-- **One ar member, written and read back** (`decode_encode_ar`): for a member the writer accepts
+(`ArEntryOK`: C-string pathname, regular file, no link target, at least the declared number of body
+bytes, member name not `__.SYMDEF`), the bytes `archive_write_ar_header` / `_data` / `_finish_entry`
+produce — the 60-byte header with its left-justified decimal / octal fields, the SVR4 `name/` or BSD
+`name ` field or the BSD `#1/<length>` form with the name in front of the body, the body, the "\n"
+pad after an odd total — are parsed by the ar reader into an entry that agrees with `norm` on every
+field ar carries (member name = last pathname component) with a byte-identical body, and the reader
+stands exactly at the next member. -/
+theorem decode_encode_ar (v : ArVariant) (st : ArState) (hg : st.wroteGlobal = true) (e : Entry) (chunks : List (List Nat))
+    (hE : ArEntryOK v (e, chunks)) (hok : (arWriteHeader v st e).1 = .ok)
+    (more : List Nat) (fmt : Nat) (acc : List RB) :
+    ∃ rb fmt', arRead false ((arWriteEntry v st e chunks).2.2.2.1 ++ more) fmt acc = arRead false more fmt' (rb :: acc) ∧
+      ArReadsBack v (e, chunks) rb := by
+  obtain ⟨rb, fmt', _, h, hrb⟩ := arMember_roundtrip v st hg e chunks hE hok more fmt acc
+  exact ⟨rb, fmt', h, hrb⟩
+
+/-- **Round trip of an ar archive** (either variant): the global header — written with the first named
+member, or at close for an archive without one — then every accepted member in order, each equal
+to `norm` with its body; refused entries (ARCHIVE_WARN: no name, trailing '/', not a regular file, a
+number that does not fit its decimal field, an SVR4 name longer than 15 bytes without a name table)
+leave no trace; fewer than 60 trailing bytes end the archive cleanly. -/
+theorem stream_roundtrip_ar (v : ArVariant) (es : List (Entry × List (List Nat))) (hes : ∀ ec ∈ es, ArEntryOK v ec) :
+    ∃ rbs fmt, arReadArchive false (arWriteArchive v es) = ⟨fmt, rbs, .eof, 0⟩ ∧
+      AllPairs (ArReadsBack v) (es.filter fun ec => arAccepted v ec.1) rbs := by
+  unfold arWriteArchive arReadArchive
+  simp only []
+  rw [arWriteEntries_magic v es {} rfl]
+  have hd : (arMagic ++ (arWriteEntries v { ({} : ArState) with wroteGlobal := true } es).1).drop 8
+      = (arWriteEntries v { ({} : ArState) with wroteGlobal := true } es).1 := by
+    have : arMagic.length = 8 := rfl
+    rw [← this, List.drop_left]
+  rw [hd]
+  obtain ⟨rbs, fmt', h, hall⟩ := arRead_entries v es hes { ({} : ArState) with wroteGlobal := true } rfl [] (by decide)
+    LA.Gen.CodecConsts.ARCHIVE_FORMAT_AR []
+  rw [List.append_nil] at h
+  exact ⟨rbs, fmt', by rw [h]; simp, hall⟩
+
+/-- e.g. BSD: a short name, a name with a blank (stored as `#1/3`), a directory (refused). -/
+example : ([({ path := some [97, 47, 98], size := some 2 }, [[1, 2]]),
+            ({ path := some [120, 32, 121], size := some 1 }, [[7]]),
+            ({ path := some [100], ftype := .dir }, [])]
+    : List (Entry × List (List Nat))).map (fun ec => arAccepted .bsd ec.1) = [true, true, false] := by decide
 
 end LA.C02
